@@ -41,9 +41,9 @@ CHECKS = {
   "ref": "DESIGN.md 7/C10",
  },
  "C12": {
-  "text": "Lean proves for every report tree satisfying a decidable shape predicate WF (keys distinct, no `_`, not numeric, at most one array of typed children per typed node) that the ids assigned by the model of defineIdRecursively are pairwise distinct, injectively joined with `_`, distinct across levels and from the three fixed ids (report_ids_unique, document_ids_nodup), and that WF is necessary (collision_without_wf). Every real report produced from nested/quantified profiles is converted to the model tree: WF is decided on it, its ids must equal the model's, and groundedness/completeness of every result and sub-result is checked.",
+  "text": "Lean proves for every report tree satisfying a decidable shape predicate WF (keys distinct, no `_`, not numeric, at most one array of typed children per typed node) that the ids assigned by the model of defineIdRecursively are pairwise distinct, injectively joined with `_`, distinct across levels and from the three fixed ids (report_ids_unique, document_ids_nodup), and that WF is necessary (collision_without_wf). A trace model (Acv/Model/Trace.lean) gives every result the traces the policy builds - one entry per literal of the firing failure branch, sub-results per failing reached node - with theorems branches_have_literals (a Proper rule never yields an empty branch, at any nesting depth), results_complete (every result has a focus node of the graph that is an instance of the target class, the validation's name, a non-empty trace whose entries each carry a non-empty component and path, recursively for sub-results) and results_iff_reported (a node has a result iff it is a target failing the formula). Every real report produced from nested/quantified profiles is compared with the trace model (results, components, paths, sub-result multisets) and converted to the model tree: WF is decided on it, its ids must equal the model's, and groundedness/completeness of every result and sub-result is checked.",
   "note": "Trusted: Lean kernel; the conversion of the report JSON to the tree type; the shape hypothesis is checked per real report (decidably), not proved for all reports the policy can produce.",
-  "technique": "Lean 4 proof (mutual induction over the report tree, string-level injectivity) + per-report decidable hypothesis check and id correspondence",
+  "technique": "Lean 4 proof (mutual induction over the report tree, string-level injectivity; trace model over the translator's failure branches) + per-report decidable hypothesis check, id correspondence and trace correspondence",
   "ref": "DESIGN.md 7/C12",
  },
  "C13": {
